@@ -351,6 +351,10 @@ def run(P, R, L):
     K.grd21_manifest_cleanup(P, R, L)
     R.clause("OWN-12", "release_version unlinks exactly the version node it was given")
     K.own12_release_unlinks_that_version(P, R, L)
+    R.clause("GRD-24", "a declined manifest re-use leaves manifest_file_number alone (it names the manifest that is kept and that CURRENT points at)")
+    K.grd24_reuse_adopts_number_with_file(P, R, L)
+    R.clause("ORD-18", "the garbage collection that ends a table compaction runs after the compaction released its input version")
+    K.ord18_gc_after_release(P, R, L)
     R.not_decided += ["directory contents for a concrete history", "crash-orphan collection beyond the guards"]
     R.assumptions += ["only the background thread and DB::open run remove_obsolete_files (single deleter)",
                       "a version handle dropped while the mutex was held continuously since acquisition is still current and is "
